@@ -183,7 +183,7 @@ inductive Kont where
   | arbRestartAfterStop (ws : List Nat)
   | arbReloadNext (rest : List Nat) (graceful sequential : Bool)
   | quitAfterStop
-  | restartInsideAfterStop                                 -- Arbiter.restart(inside_circusd): the try around `yield self._stop_watchers(..)`
+  | restartInsideAfterStop (wasStopping : Bool)            -- Arbiter.restart(inside_circusd): the try around `yield self._stop_watchers(..)`; the local `was_stopping`
   | manageAfterStopOrSpawn (wuid : Nat)
   | manageWatchersTail (needOnDemand : Bool)                -- manage_watchers after `yield list_to_yield`
   | killWaitOther (pid : Nat)                               -- kill_process: another kill of this process is in flight
